@@ -9,11 +9,19 @@ RUN = "/venv/bin/python -B /verif/run_check.py"
 TV = "translation_validation"
 MC = "model_checking"
 
+TECH_TV = "symbolic execution of the real encoder by z3-term injection + SMT validity queries against a reference semantics, counterexample replay through the public API"
+NOTE_TV = "Bounded by harness shapes (listed in the evidence); pydantic-core trusted to enforce declared field constraints; z3 4.12.6 is both the term builder of the code under test and the decision procedure; reference semantics from the documentation (DESIGN Appendix A)."
+
+
+def tv(ref, text, note=NOTE_TV, technique=TECH_TV, level=TV):
+    return dict(level=level, ref=ref, text=text, note=note, technique=technique)
+
+
 CHECKS = {
-    "C01": dict(level=TV, ref="DESIGN.md 4 C01",
-                text="The real task constructors and SchedulingSolver.initialize() are executed on z3-term parameters; for every symbolic path the assertion set actually handed to z3 is proved (unsat of the negation) to imply each timing clause for ALL parameter values and ALL admitted schedules, per task kind, optional flag, release/due/horizon combination, next to every other element kind and under several solver configurations; the same obligations are re-decided on unpatched builds at concrete parameter points. Counterexamples are replayed through the public API before being reported.",
-                note="Bounded by harness shapes (one task under test + one context element); pydantic-core trusted to enforce declared field constraints; z3 is both term builder and decision procedure.",
-                technique="symbolic execution of the real encoder by z3-term injection + SMT validity queries (QF_LIA) against a reference semantics, counterexample replay"),
+    "C01": tv("DESIGN.md 4 C01", "The real task constructors and SchedulingSolver.initialize() are executed on z3-term parameters; for every symbolic path the assertion set actually handed to z3 is proved (unsat of the negation) to imply each timing clause for ALL parameter values and ALL admitted schedules, per task kind, optional flag, release/due/horizon combination, next to every other element kind and under several solver configurations; the same obligations are re-decided on unpatched builds at concrete parameter points. Counterexamples are replayed through the public API before being reported."),
+    "C02": tv("DESIGN.md 4 C02", "Real add_required_resource / SelectWorkers / CumulativeWorker / initialize() executed symbolically; capacity is proved at a symbolic instant (free variable = all instants) for workers and cumulative workers, busy spans for static/delayed/dynamic assignments, selection counts for every kind and count, and the work-amount inequality with symbolic productivities; all for every admitted schedule and selection within the shape bounds."),
+    "C03": tv("DESIGN.md 4 C03", "Every task-constraint class is declared through the real API with symbolic values/offsets/interval bounds on every mix of task kinds and optional flags (also as optional constraint, with a horizon, and with the solver object created before the constraint); each documented relation is proved for all admitted schedules under the scheduled/applied guards."),
+    "C04": tv("DESIGN.md 4 C04", "Every resource-constraint class is declared through the real API on a plain worker, a worker reached through a selection and a cumulative worker, with symbolic interval bounds, workload bounds, distances, offsets and activity windows; periodic rules are proved for a symbolic period index; all for every admitted schedule and selection."),
 }
 
 NOT_APPLICABLE = {}
